@@ -13,6 +13,7 @@ cleanup() { git -C /repo worktree remove --force "$WT" 2>/dev/null; rm -rf "$WT"
 trap cleanup EXIT
 git -C "$WT" apply "/verif/seeded/$ID/patch.diff" || { echo "mutant=$ID patch does not apply to the current tree"; exit 2; }
 for c in "$@"; do
+  case "$c" in C03|C18) export VERIF_SKIP_PLAIN=0;; *) export VERIF_SKIP_PLAIN=1;; esac
   out=$(VERIF_REPO="$WT" VERIF_EVIDENCE_DIR=/verif/.build/mutant-evidence VERIF_ROOT=/verif timeout 1500 bash scripts/check.sh "$c" ${TIER:-quick} 2>/dev/null); rc=$?
   nv=$(echo "$out" | grep -c '^VIOLATION' || true)
   first=$(echo "$out" | grep -m1 '^VIOLATION' | cut -c1-400)
